@@ -560,6 +560,9 @@ pub fn f64_to_string(x: f64) -> (r: String) ensures r@ == fmt_shortest(x) { x.to
 pub uninterp spec fn f64_le_zero(x: f64) -> bool;
 #[verifier::external_body]
 pub fn f64_le0(x: f64) -> (r: bool) ensures r == f64_le_zero(x) { x <= 0.0 }
+pub uninterp spec fn f64_between(x: f64, lo: f64, hi: f64) -> bool;
+#[verifier::external_body]
+pub fn f64_in(x: f64, lo: f64, hi: f64) -> (r: bool) ensures r == f64_between(x, lo, hi) { (lo..=hi).contains(&x) }
 
 // ---------------------------------------------------------------- f64 (machine floating point is NOT modelled: comparisons are uninterpreted predicates)
 pub uninterp spec fn abs_lt(x: f64, bound: f64) -> bool;
